@@ -1927,6 +1927,9 @@ bool DGXMLScanner::scanStartTagNS(bool& gotData)
                 , ElemStack::Mode_Element
             );
 
+        // Remember it for the matching end tag
+        fElemStack.setCurrentURI(uriId);
+
         fDocHandler->startElement
         (
             *elemDecl
